@@ -14,13 +14,19 @@ type VerifInstance struct {
 	Renew  int
 	CanP2  bool
 	Status int
+	// Weakness is a copy of the instance's own weakness entries (ToModel does not carry them).
+	Weakness info.WeaknessMap
 }
 
 // VerifInstances returns the instances attached to target in attachment order (verification only).
 func (mgr *Manager) VerifInstances(target key.TargetID) []VerifInstance {
 	out := make([]VerifInstance, 0, len(mgr.targets[target]))
 	for _, m := range mgr.targets[target] {
-		out = append(out, VerifInstance{Inst: m, Model: m.ToModel(), Renew: m.renewTurn, CanP2: m.canTickImmediatelyPhase2, Status: int(m.statusType)})
+		weak := make(info.WeaknessMap, len(m.weakness))
+		for k, v := range m.weakness {
+			weak[k] = v
+		}
+		out = append(out, VerifInstance{Inst: m, Model: m.ToModel(), Renew: m.renewTurn, CanP2: m.canTickImmediatelyPhase2, Status: int(m.statusType), Weakness: weak})
 	}
 	return out
 }
